@@ -98,7 +98,11 @@ McProd ==
         kinds |-> MapSeq(blk.txs, LAMBDA e : IF e.id = blk.mint.id THEN "mint" ELSE Tx(e.id).kind),
         statuses |-> MapSeq(blk.txs, LAMBDA e : [id |-> e.id, res |-> e.res, fee |-> e.fee, gas |-> e.gas]),
         sizes |-> MapSeq(blk.txs, LAMBDA e : e.size), events |-> blk.events, msgCount |-> blk.msgCount,
-        inbox |-> RootOf(chain.da, blk.da), da |-> blk.da, h |-> blk.h, mint |-> blk.mint, dg |-> McDg]
+        inbox |-> RootOf(chain.da, blk.da), da |-> blk.da, h |-> blk.h, mint |-> blk.mint, dg |-> McDg,
+        \* C07: in the model both strategies are the one deterministic transition function
+        strat |-> "native", bid |-> "b", skippedIds |-> MapSeq(blk.skipped, LAMBDA e : e.id),
+        other |-> [strat |-> "wasm", ok |-> TRUE, err |-> "", bid |-> "b", dg |-> McDg,
+                   skipped |-> MapSeq(blk.skipped, LAMBDA e : e.id)]]
   ELSE [NoProd EXCEPT !.err = "ContractDoesNotExist"]
 McCommit == [coins |-> w.coins, msgs |-> w.msgs, contracts |-> w.contracts, processed |-> w.processed, h |-> blk.h, da |-> blk.da]
 Tries == Len(blk.txs) + Len(blk.skipped)
